@@ -214,7 +214,7 @@ namespace verif
         volatile u64          seq      = 0; // incremented for every guarded region
         volatile u64          seen_seq = 0; // timer: sequence number seen at last tick
         volatile int          ticks    = 0; // ticks the current region has been running
-        int                   hang_ticks = 20; // * 50ms
+        int                   hang_ticks = 20; // * 50ms of CPU time
         bool                  installed  = false;
     };
     inline guard_state& guard()
@@ -226,7 +226,7 @@ namespace verif
     extern "C" inline void verif_signal_handler(int sig)
     {
         auto& g = guard();
-        if (sig == SIGALRM)
+        if (sig == SIGPROF)
         {
             if (!g.active)
                 return;
@@ -284,13 +284,14 @@ namespace verif
         sa.sa_handler = verif_signal_handler;
         sa.sa_flags   = SA_ONSTACK | SA_NODEFER;
         sigemptyset(&sa.sa_mask);
-        for (int s : {SIGSEGV, SIGBUS, SIGFPE, SIGILL, SIGALRM})
+        for (int s : {SIGSEGV, SIGBUS, SIGFPE, SIGILL, SIGPROF})
             sigaction(s, &sa, nullptr);
         itimerval it;
         it.it_interval.tv_sec  = 0;
         it.it_interval.tv_usec = 50000;
         it.it_value            = it.it_interval;
-        setitimer(ITIMER_REAL, &it, nullptr);
+        // CPU time of this process, not wall time: a process that is descheduled on a loaded machine must not look hung
+        setitimer(ITIMER_PROF, &it, nullptr);
         std::set_terminate([] { guard_escape(OUT_ABORTED); });
     }
 
